@@ -6,6 +6,7 @@ import (
 	"fmt"
 	"hash/fnv"
 	"os"
+	"regexp"
 	"sort"
 	"strings"
 	"testing"
@@ -156,6 +157,9 @@ func LoadSites(path string) {
 	for _, s := range tab.Sites {
 		SiteFunc[s.Site] = s.Func
 		SiteKind[s.Site] = s.Kind
+		if s.Kind == "go" {
+			spawnFunc[shortSite(s.Site)] = s.Func
+		}
 		switch s.Kind {
 		case "lock", "select", "yield", "go":
 			if strings.HasPrefix(s.Site, "workflow/workflow.go") || strings.HasPrefix(s.Site, "internal/step/") {
@@ -164,6 +168,34 @@ func LoadSites(path string) {
 		}
 	}
 	sort.Strings(Sites)
+}
+
+// spawnFunc maps the short form of a go-statement site, as it appears in goroutine names
+// ("workflow/workflow.go:679"), to the function that contains the statement.
+var spawnFunc = map[string]string{}
+
+func shortSite(site string) string {
+	parts := strings.Split(site, ":")
+	segs := strings.Split(parts[0], "/")
+	if len(segs) > 2 {
+		segs = segs[len(segs)-2:]
+	}
+	out := strings.Join(segs, "/")
+	if len(parts) > 1 {
+		out += ":" + parts[1]
+	}
+	return out
+}
+
+var roleTail = regexp.MustCompile(`[^/]+/[^/]+\.go:\d+`)
+
+// SpawnedIn lists, outermost first, the functions whose go statements the named goroutine descends from.
+func SpawnedIn(role string) []string {
+	var out []string
+	for _, m := range roleTail.FindAllString(role, -1) {
+		out = append(out, spawnFunc[m])
+	}
+	return out
 }
 
 var envSites = []string{"env:exec-start", "env:exec-end", "env:deploy", "env:deploy-ok", "env:execute", "env:cancel-signal"}
@@ -312,7 +344,7 @@ func probesOf(c *Case, r *harness.Result) []string {
 	if len(r.Snapshots) > 0 {
 		out = append(out, "fallback_detector_gave_up")
 	}
-	if r.SitesHit["workflow/workflow.go:674:5"] > 0 || detectorRetry(r) {
+	if detectorRetry(r) {
 		out = append(out, "deadlock_retry_fired")
 	}
 	if has("plugin_ignores_cancel") {
